@@ -10,8 +10,8 @@
    Part 1 speaks about a history as an outside observer sees it: after every event, what every
    request is doing and how many requests are inside the wrapped function per path.  It is
    executable and is what bin/check evaluates on the observations made on the Go code.
-   Part 2 gives the same clauses for a transition system with a view function; Proofs.v
-   instantiates it with the model. *)
+   Part 2 is the counting function with which Properties/C16.v states the clauses for every
+   reachable state of the model. *)
 From Coq Require Import ZArith NArith List Bool.
 Import ListNotations.
 Open Scope Z_scope.
@@ -151,32 +151,6 @@ Fixpoint hist_class (epl tot : Z) (o : obs) (ar : list (N * N)) (h : list (ev * 
       if N.eqb c 0 then hist_class epl tot o' (log_arrival ar e) h' else c
   end.
 
-(* ---------------- Part 2: the clauses for a transition system ---------------- *)
-Section Abstract.
-  Variable S : Type.                  (* states *)
-  Variable A : Type.                  (* atomic actions *)
-  Variable next : S -> A -> S.
-  Variable init : S.
-  Variable requests : S -> list N.    (* requests that have called Do, in arrival order *)
-  Variable path : S -> N -> N.
-  Variable in_flight : S -> N -> bool.  (* inside the wrapped function *)
-  Variable waiting : S -> N -> bool.    (* waiting for a slot of its path *)
-  Variable returned_ : S -> N -> bool.
-
-  Definition reach (s : S) : Prop := exists tr, s = fold_left next tr init.
-
-  Definition n_in_flight (s : S) (k : N) : Z :=
-    Z.of_nat (length (filter (fun r => N.eqb (path s r) k && in_flight s r) (requests s))).
-  Definition n_in_flight_total (s : S) : Z :=
-    Z.of_nat (length (filter (in_flight s) (requests s))).
-
-  Definition EndpointLimit (epl : Z) : Prop := forall s k, reach s -> n_in_flight s k <= epl.
-  Definition TotalLimit (tot : Z) : Prop := forall s, reach s -> n_in_flight_total s <= tot.
-  (* whenever a step turns a waiting request into a non-waiting one that was not withdrawn
-     (it is not returned afterwards), every request for the same path that arrived before it
-     is no longer waiting *)
-  Definition ArrivalOrder (admitted : S -> N -> bool) : Prop :=
-    forall s a r, reach s -> waiting s r = true -> admitted (next s a) r = true ->
-      forall pre post, requests s = pre ++ r :: post ->
-      forall r', In r' pre -> path s r' = path s r -> waiting s r' = false.
-End Abstract.
+(* ---------------- Part 2: the clauses over a set of requests ---------------- *)
+(* number of requests of the arrival log [rs] that satisfy p *)
+Definition count_where (p : N -> bool) (rs : list N) : Z := Z.of_nat (length (filter p rs)).
